@@ -124,11 +124,13 @@ def r8_1(cx):
         if be is None:
             continue
         rel = as_relation((fn.switch_expr(b), True))
-        if rel and rel[0] == 'Eq':
-            a, c = rel[1].strip(), rel[2].strip()
+        if rel and str(rel[0]) in ('Eq', 'Ne'):
+            op, a, c = rel
+            a, c = a.strip(), c.strip()
             for x, y in ((a, c), (c, a)):
                 if is_call(x, 'len') and x.has_call('ByteArena::read_n') and is_call(y, 'len') and y.has_call(ASLICE + '::take') and not y.has_call('ByteArena::read_n'):
-                    prog_edge = (b, be[1], be[0])
+                    # (`new != carried { keep going }` is the same test with the arms exchanged)
+                    prog_edge = (b, be[1], be[0]) if op == 'Eq' else (b, be[0], be[1])
     cx.check(prog_edge is not None, 'no-progress-test', fn, None, 'no progress <=> new.len() == carried.len()',
              fail_detail='no comparison of the refilled length with the carried length')
     if prog_edge:
@@ -216,6 +218,10 @@ def r8_3(cx):
                 if rel and rel[0] == 'Ne' and (rel[1].is_const_int(0) or rel[2].is_const_int(0) or
                                                any(c.info.get('ref_bytes') == '0000000000000000' for c in (rel[1].strip(), rel[2].strip()) if c.kind == 'const')):
                     other = rel[2] if (rel[1].is_const_int(0) or rel[1].strip().kind == 'const') else rel[1]
+                    # `slice.len() != 0` is `!slice.is_empty()`
+                    if is_call(other, 'len') and is_call(other.strip().args[0], ASLICE + '::slice') and \
+                            show(other.strip().args[0].strip().args[0].strip()) == show(sl):
+                        ok, why = True, 'slice.len() != 0'
                     if is_call(sl, 'split_at') or (sl.kind == 'proj' and sl.has_call(ASLICE + '::split_at')):
                         sp = [c for c in sl.calls(ASLICE + '::split_at')][0]
                         if show(sp.args[1].strip()) == show(other.strip()):
@@ -228,6 +234,9 @@ def r8_3(cx):
                 rel = as_relation((f, val))
                 if rel and rel[0] == 'Eq' and is_call(rel[1], 'len') and is_call(rel[2], 'len'):
                     noprog = True
+                # `len() == 0` is `is_empty()`
+                if rel and rel[0] == 'Eq' and rel[2].is_const_int(0) and is_call(rel[1], 'len') and rel[1].has_call('ByteArena::read_n'):
+                    empty = True
             cx.check(empty and noprog, inst, fn, fn.loc(pos.bb, pos.idx), 'Eof only where the refill made no progress and the buffer is empty',
                      fail_detail='Eof can be returned while bytes are still buffered (empty: %s, no-progress: %s)' % (empty, noprog))
 
@@ -261,6 +270,13 @@ def r8_4(cx):
         rel = as_relation((fn.switch_expr(b), True))
         if rel and rel[0] == 'Eq':
             for x, y in ((rel[1].strip(), rel[2].strip()), (rel[2].strip(), rel[1].strip())):
+                # (`last() == Some(&STUFF_SEQUENCE[0])` is `*last().unwrap() == STUFF_SEQUENCE[0]` on a non-empty buffer)
+                if y.kind == 'agg' and y.info.get('variant') == 'Some' and len(y.args) == 1 and is_call(x, 'last'):
+                    y = y.args[0].strip()
+                # ... where rustc promotes `Some(&STUFF_SEQUENCE[0])` to one constant: recognised by the byte it points to
+                if y.kind == 'const' and 'Option<&u8>' in str(y.info.get('ty', '')) and is_call(x, 'last') and \
+                        (y.info.get('ptr_to_bytes') or '')[:2] == cx.prog.const_bytes('hcobs::STUFF_SEQUENCE').hex()[:2]:
+                    g['edge'] = (b, be[1], be[0])
                 if x.has_call('last') and any(named_const(n, 'STUFF_SEQUENCE') for n in y.walk()) and y.kind == 'proj' and y.op == 'index' and y.b is not None and y.b.is_const_int(0):
                     g['edge'] = (b, be[1], be[0])
     ok = False
@@ -300,6 +316,10 @@ def r8_4(cx):
                     rng = x.args[1].strip()
                     if rng.kind == 'agg' and rng.args[0].is_const_int(0) and rng.args[1].is_const_int(2) and x.args[0].has_call(ASLICE + '::slice'):
                         st = True
+        # the same test spelled buf.starts_with(&STUFF_SEQUENCE)
+        if e is not None and e.kind == 'call' and e.op.endswith('starts_with') and len(e.args) == 2 and e.args[0].has_call(ASLICE + '::slice') and \
+                any(c.info.get('ref_bytes') == cx.prog.const_bytes('hcobs::STUFF_SEQUENCE').hex() for c in e.args[1].consts()):
+            st = True
     cx.check(st, 'sentinel-test', fn, None, 'Sentinel <=> buf[0..2] == STUFF_SEQUENCE', fail_detail='no comparison of the first two buffered bytes with STUFF_SEQUENCE')
     # tail kept
     kept = [pos for pos, pl, rv in fn.stores() if len(pl['p']) == 2 and pl['p'][1].get('n') == 'buf' and rv is not None
